@@ -34,6 +34,7 @@ type Profile struct {
 	DropPct, DupPct, StalePct, CrashPct, AppLagPct, CompactPct, CCPct, TransferPct, BigPct, CampaignPct int
 	FIFOPct                                                                                            int // chance that a delivery takes the oldest message
 	RestartPct                                                                                         int // chance per pick of a down node to restart it
+	ReadyLagPct                                                                                        int // chance that a node's Ready is not taken when chosen (messages pile up between Readys)
 	CalmMin, HostileMin                                                                                int // phase lengths (scheduler steps): calm in [CalmMin, 3*CalmMin], hostile in [HostileMin, 4*HostileMin]
 }
 
